@@ -81,6 +81,16 @@ def main():
     wave3 = "--wave3" in sys.argv
     wave2 = "--wave2" in sys.argv or wave3
     sub, offset = ("SEED3", 4) if wave3 else ("SEED2", 2)
+    wave_no = 3 if wave3 else (2 if wave2 else 1)
+    first_miss = set()
+    if "--wave" in sys.argv:
+        # generic form: --wave N --sub SEEDk --offset K [--first-miss C03-7,C09-7,...]
+        wave_no = int(sys.argv[sys.argv.index("--wave") + 1])
+        sub = sys.argv[sys.argv.index("--sub") + 1]
+        offset = int(sys.argv[sys.argv.index("--offset") + 1])
+        wave2 = True
+        if "--first-miss" in sys.argv:
+            first_miss = set(sys.argv[sys.argv.index("--first-miss") + 1].split(","))
     needs = wave2_needs(sub, offset) if wave2 else NEEDS
     NEEDS.update(needs)
     for key in sorted(needs):
@@ -100,7 +110,8 @@ def main():
             shutil.copy(f"{src}/NOTES.md", f"{d}/author_notes.md")
         meta = {
             "property": pid,
-            "wave": 3 if wave3 else (2 if wave2 else 1),
+            "wave": wave_no,
+            "missed_by_the_quick_tier_as_it_stood_before_this_wave": key in first_miss,
             "origin": "fresh sub-agent given only the property text and its own scratch worktree of /repo (nothing from /verif)",
             "needs_to_manifest": NEEDS[key],
             "what_was_run": [
